@@ -212,6 +212,41 @@ func runBusStress(rng *rand.Rand, idx int, tier string) Case {
 	}
 	close(stop)
 	spin.Wait()
+	// ---- phase 3: two goroutines unsubscribe and re-subscribe different handlers of one type; a probe event must then
+	// reach every handler exactly once (a removal by a stale position would drop one and keep another twice) ----
+	type stP struct{ R int }
+	var probe [4]atomic.Int32
+	pf := [4]func(stP){
+		func(stP) { probe[0].Add(1) }, func(stP) { probe[1].Add(1) }, func(stP) { probe[2].Add(1) }, func(stP) { probe[3].Add(1) }}
+	for k := 0; k < 4; k++ {
+		eb.Subscribe(bus, pf[k])
+	}
+	iters := 400
+	if tier == "thorough" {
+		iters = 3000
+	}
+	var cw sync.WaitGroup
+	for _, k := range []int{0, 2} {
+		cw.Add(1)
+		go func(k int) {
+			defer cw.Done()
+			for i := 0; i < iters; i++ {
+				guard(func() { eb.Unsubscribe[stP](bus, pf[k]) })
+				guard(func() { eb.Subscribe(bus, pf[k]) })
+			}
+		}(k)
+	}
+	cw.Wait()
+	guard(func() { eb.Publish(bus, stP{0}) })
+	probeBad := 0
+	for k := range probe {
+		if probe[k].Load() != 1 {
+			probeBad++
+		}
+	}
+	if eb.HandlerCount[stP](bus) != 4 {
+		probeBad += 10
+	}
 	// ---- observations ----
 	var stT []T
 	for _, h := range stable {
@@ -243,7 +278,7 @@ func runBusStress(rng *rand.Rand, idx int, tier string) Case {
 	sort.Strings(tags)
 	return Case{Input: Tup(Nat(nst), Nat(nonce), Nat(G*M), B(withStore)),
 		Obs: C("Build_stobs", L(stT...), L(onceT...), Nat(eb.HandlerCount[stE](bus)), Nat(records), Nat(disorder), Nat(int(escaped.Load())),
-			Nat(onceLost), Nat(onceStale), Nat(deadSeen)),
+			Nat(onceLost), Nat(onceStale), Nat(deadSeen), Nat(probeBad)),
 		Tags:       tags,
 		Nontrivial: true}
 }
